@@ -160,7 +160,7 @@ def io_line(g, L, known, grid, kind, cfg, rng=None, with_battery=True):
         if kind in ("snapshots", "interactions"):
             delim, enc, target = cfg["delim"], cfg["enc"], cfg["target"]
             sample = L.node(known[0])
-            nodetype = int if isinstance(sample, int) else str
+            nodetype = float if isinstance(sample, float) else (int if isinstance(sample, int) else str)
             ext = {"plain": ".txt", "gz": ".gz", "bz2": ".bz2", "fileobj": ".txt"}[target]
             fd, path = tempfile.mkstemp(suffix=ext, dir=tmpdir)
             os.close(fd)
